@@ -151,6 +151,20 @@ def iter_index(shape, order):
             yield tuple(ii[io] for io in aorder)
 
 
+def as_object_array(value, shape):
+    """nested sequences -> array of python objects of the given shape (items
+    such as tuples, dicts or xobjects are kept as they are)"""
+    if hasattr(value, "shape") or hasattr(value, "_shape"):
+        return value
+    out = np.empty(shape, dtype=object)
+    for idx in np.ndindex(*shape):
+        item = value
+        for ii in idx:
+            item = item[ii]
+        out[idx] = item
+    return out
+
+
 def mk_order(order, shape):
     if order == "C":
         return list(range(len(shape)))
@@ -396,6 +410,7 @@ class Array(metaclass=MetaArray):
                 # args must be an array of correct dimensions
                 offsets = np.empty(shape, dtype="int64")
                 offset += items * 8
+                value = as_object_array(value, shape)
                 for idx in iter_index(shape, order):
                     extra[idx] = cls._itemtype._inspect_args(value[idx])
                     offsets[idx] = offset
@@ -517,10 +532,7 @@ class Array(metaclass=MetaArray):
                             info.extra.get(idx),
                         )
         else:  # there is a value for initialization
-            if not hasattr(value, "shape") and not isinstance(
-                value, Array
-            ):  # not nplike
-                value = np.asarray(value, dtype=object)
+            value = as_object_array(value, info.shape)
             if cls._is_static_type:
                 ioffset = offset + cls._data_offset
                 for idx in iter_index(info.shape, cls._order):
